@@ -647,3 +647,31 @@ def c20_isolation(r, seed, tier, model_ok):
     r.slice("sequences_vs_fresh_process", n, len(uniq), [uniq[0]["text"], uniq[1]["text"]], dict(programs=len(uniq), sequences=len(seqs), steps=n, outcome_kinds=dict(collections.Counter(o[0].split()[0] for o in fresh))),
             "program sequences (orders, repetitions, near-copies on identical line layouts, imports) in one process vs each program alone in a fresh process; distinct = distinct programs", bad[:40])
     r.slice("hash_seeds", len(uniq) * len(seeds), len(uniq), [uniq[-1]["text"]], dict(seeds=seeds), "every program under several PYTHONHASHSEED values: result, error text, stdout identical", bad2[:40])
+    # (c) the disk changes BETWEEN two evaluations: a module imported earlier disappears, its directory becomes a file (its path can no longer be
+    # looked at: ENOTDIR), it becomes a dangling link or a link to itself (ELOOP), or a directory - and then the same process imports ANOTHER
+    # module, or that one again, by either route: the answer must be the one a fresh process gives on the same (changed) disk
+    X_LIT, X_PATH, Y_LIT, Y_PATH = "ㄱ ㄴ ㅂㅎㄷ", f"{st('./ㄱ/ㄴ.txt')} ㅂㅎㄴ", "ㅁ ㅂㅎㄴ", f"{st('ㅁ.txt')} ㅂㅎㄴ"
+    CHANGES = {"deleted": [dict(op="unlink", path="ㄱ/ㄴ.txt")], "directory-deleted": [dict(op="rmtree", path="ㄱ")],
+               "directory-now-a-file": [dict(op="rmtree", path="ㄱ"), dict(op="write", path="ㄱ", text="ㄹ")],
+               "link-to-itself": [dict(op="unlink", path="ㄱ/ㄴ.txt"), dict(op="symlink", path="ㄱ/ㄴ.txt", to="ㄴ.txt")],
+               "dangling-link": [dict(op="unlink", path="ㄱ/ㄴ.txt"), dict(op="symlink", path="ㄱ/ㄴ.txt", to="nowhere")],
+               "now-a-directory": [dict(op="unlink", path="ㄱ/ㄴ.txt"), dict(op="mkdir", path="ㄱ/ㄴ.txt")],
+               "rewritten": [dict(op="write", path="ㄱ/ㄴ.txt", text="ㅁ")], "nothing": []}
+    jobs = []
+    for cname, ops in CHANGES.items():
+        for first in (X_LIT, X_PATH):
+            for later in (Y_LIT, Y_PATH, X_LIT, X_PATH, f"({Y_LIT}) ({Y_PATH}) ㄴㅎㄷ"):
+                if cname in ("rewritten", "now-a-directory") and later in (X_LIT, X_PATH): continue          # the module cache, the allowed carry-over: the same path still names something
+                jobs.append((cname, ops, first, later))
+    def disk_pair(j):
+        cname, ops, first, later = j; outs = []
+        for session in (True, False):
+            d = scratch("c20d"); os.makedirs(os.path.join(d, "ㄱ")); open(os.path.join(d, "ㄱ", "ㄴ.txt"), "w", encoding="utf-8").write("ㄷ"); open(os.path.join(d, "ㅁ.txt"), "w", encoding="utf-8").write("ㄹ")
+            try: outs.append(_seq(([dict(text=first)] if session else []) + [dict(text=later, disk=ops)], d)[-1])
+            finally: shutil.rmtree(d, ignore_errors=True)
+        return outs
+    with concurrent.futures.ThreadPoolExecutor(vlib.NPROC) as ex: pairs = list(ex.map(disk_pair, jobs))
+    bad3 = [dict(program=later, impl=f"after `{first}` and then the disk change '{cname}': {a[0][:150]!r}", model=f"alone in a fresh process on the changed disk: {b[0][:150]!r}", which=["isolation-disk-change"])
+            for (cname, ops, first, later), (a, b) in zip(jobs, pairs) if a != b]
+    r.slice("disk_changes_between_evaluations", len(jobs) * 2, len(jobs), [jobs[0][3]], dict(changes=list(CHANGES), outcome_kinds=dict(collections.Counter(b[0].split()[0] for _, b in pairs))),
+            "a module imported earlier is deleted / un-stat-able / a link / a directory before the next evaluation imports another module or that one again: same answer as a fresh process on the changed disk", bad3[:40])
